@@ -300,7 +300,7 @@ def canon_call_impl(o):
 
 
 def split_grid(quick):
-    N = 9 if quick else 20
+    N = 16 if quick else 40
     for n in range(0, N + 1):
         css = [None] + list(range(0, n + 3))
         ncs = [None] + list(range(1, n + 3))
@@ -784,7 +784,7 @@ def strip(o):
 
 def check_apply(R):
     rng = R.rng
-    ncases = int(os.environ.get("C12_NAPPLY", 260 if R.quick else 2500))
+    ncases = int(os.environ.get("C12_NAPPLY", 600 if R.quick else 4000))
     mlines, mobs, mcap = [], [], (6000 if R.quick else 120000)
     for ci in range(ncases):
         nleaves = rng.choice([1, 2, 2, 3, 3, 4, 4, 5, 5, 6, 7, 8]) if ci % 4 else rng.choice([3, 4, 5])
@@ -800,7 +800,7 @@ def check_apply(R):
             mlines.append(apply_model_lines(case, None))
             mobs.append((case, None, apply_impl_canon(st)))
         ntasks = len(case["spec"]) if case["con"] else nleaves * (2 if case["lazy"] else 1)
-        scheds = T.schedules(ntasks, rng, exhaustive_upto=5 if not R.quick else (4 if ci % 5 else 5))
+        scheds = T.schedules(ntasks, rng, exhaustive_upto=5)
         R.count("apply:leaves=%d" % nleaves)
         for k in ("inplace", "out", "con", "cwd", "lazy", "names", "default"):
             if case[k]:
@@ -1138,8 +1138,8 @@ def main(R):
               "tensordicts / None in place / mixed / chunk-dependent values, through an in-process pool and through real fork and spawn pools "
               "with per-chunk delays; (3) _multithread_apply_nest / _fast_apply(num_threads) over random nested trees (1..8 leaves) and the "
               "option lattice (inplace, out, filter_empty, named, nested_keys, others/default, call_on_nested, names, call_when_done, lazy stacks), "
-              "memmap_/memmap/memmap_like/consolidate writers, each under every task permutation (<= 5 tasks in thorough, <= 4 in quick) plus eager "
-              "and random schedules; distinct by full case; non-trivial = more than one chunk / leaf") % (9 if R.quick else 20)
+              "memmap_/memmap/memmap_like/consolidate writers, each under every task permutation (apply: <= 5 tasks; writers: <= 4 tasks in quick, <= 5 in thorough) plus eager "
+              "and random schedules; distinct by full case; non-trivial = more than one chunk / leaf") % (16 if R.quick else 40)
     R.assumptions = ["multiprocessing.Pool.imap yields results in submission order (trusted; exercised for real with delays that invert completion order)",
                      "the mapped / applied functions are pure functions of their argument (plus in-place writes to their own chunk)",
                      "thread schedules are explored as (eager set, permutation of the pending tasks) run to completion in the harness thread: "
